@@ -703,3 +703,132 @@ func (s *session) updateFresh(defs []*logDef, wk []witKey, l *logDef, withState 
 }
 
 func (s *session) end2reset(l *logDef, withState bool, tr *branch) {}
+
+// ---------------------------------------------------------------- C12: merged history vs each log's history alone
+
+func init() { scenarios["isolation"] = scenarioIsolation }
+
+type preReq struct {
+	old   uint64
+	cp    []byte
+	proof [][]byte
+}
+
+func textDigest(b []byte) string {
+	if b == nil {
+		return "-"
+	}
+	i := bytes.LastIndex(b, []byte("\n\n"))
+	if i < 0 {
+		return "?"
+	}
+	return hx(leafHash(b[:i+1])[:6])
+}
+
+func scenarioIsolation(t *traceWriter, rng *rand.Rand) {
+	n := pick(30, 400)
+	keyA := genLogKey(rng, "iso-a")
+	keyB := genLogKey(rng, "iso-b")
+	wk := []witKey{genWitKey(rng, "isowit", "ed25519"), genWitKey(rng, "isowit", "cosigv1")}
+	stores := []string{"mem", "sql"}
+	for c := 0; c < n; c++ {
+		nLogs := 2 + rng.Intn(4)
+		tr := newExplicitBranch("trunk", 48, nil, 0)
+		fk := newExplicitBranch("f3", 48, tr, 3)
+		var defs []*logDef
+		hist := map[int][]preReq{}
+		for i := 0; i < nLogs; i++ {
+			k := keyA
+			if i >= 3 {
+				k = keyB
+			} // the first three share a key under different origins
+			defs = append(defs, &logDef{origin: fmt.Sprintf("iso.example/%d/log%d", c, i), key: k})
+		}
+		for i, l := range defs {
+			// a state-independent history: a chain of honest steps with some bad requests thrown in
+			sizes := []uint64{uint64(rng.Intn(4))}
+			for len(sizes) < 2+rng.Intn(4) {
+				sizes = append(sizes, sizes[len(sizes)-1]+uint64(rng.Intn(4)))
+			}
+			prev := uint64(0)
+			first := true
+			for _, sz := range sizes {
+				pr := [][]byte{}
+				if !first && prev > 0 && prev < sz {
+					pr = tr.consistency(prev, sz)
+				}
+				old := prev
+				if first {
+					old = 0
+				}
+				hist[i] = append(hist[i], preReq{old, signNote(cpText(l.origin, sz, tr.root(sz)), l.key.signer), pr})
+				switch rng.Intn(5) {
+				case 0: // a fork attempt
+					hist[i] = append(hist[i], preReq{sz, signNote(cpText(l.origin, sz+2, fk.root(sz+2)), l.key.signer), fk.consistency(maxU(sz, 1), sz+2)})
+				case 1: // another configured log's checkpoint under this ID
+					o := defs[rng.Intn(len(defs))]
+					xp := [][]byte{}
+					if sz > 0 {
+						xp = tr.consistency(sz, sz+1)
+					}
+					hist[i] = append(hist[i], preReq{sz, signNote(cpText(o.origin, sz+1, tr.root(sz+1)), o.key.signer), xp})
+				case 2: // stale
+					hist[i] = append(hist[i], preReq{sz + 5, signNote(cpText(l.origin, sz+6, tr.root(sz+6)), l.key.signer), [][]byte{}})
+				}
+				prev, first = sz, false
+			}
+		}
+		// merged run
+		type outc struct{ per map[int][]string }
+		run := func(order [][2]int, only int) map[int][]string {
+			s := newSession(t, stores[c%2], defs, wk)
+			res := map[int][]string{}
+			for _, o := range order {
+				li, ri := o[0], o[1]
+				if only >= 0 && li != only {
+					continue
+				}
+				r := hist[li][ri]
+				u := s.update(defs[li].id, r.old, r.cp, r.proof, "class=iso")
+				res[li] = append(res[li], u.cls+":"+textDigest(u.ret))
+			}
+			for li, l := range defs {
+				if only >= 0 && li != only {
+					continue
+				}
+				res[li] = append(res[li], "final:"+textDigest(mustState(s, l.id)))
+			}
+			s.end()
+			return res
+		}
+		// a random merge preserving each log's own order
+		var order [][2]int
+		idx := make([]int, nLogs)
+		for {
+			var cand []int
+			for i := range defs {
+				if idx[i] < len(hist[i]) {
+					cand = append(cand, i)
+				}
+			}
+			if len(cand) == 0 {
+				break
+			}
+			i := cand[rng.Intn(len(cand))]
+			order = append(order, [2]int{i, idx[i]})
+			idx[i]++
+		}
+		merged := run(order, -1)
+		for i, l := range defs {
+			alone := run(order, i)
+			t.line("ISO log=%s merged=%s alone=%s", hx([]byte(l.id)), strings.Join(merged[i], ","), strings.Join(alone[i], ","))
+		}
+	}
+}
+
+func maxU(a, b uint64) uint64 {
+	if a > b {
+		return a
+	}
+	return b
+}
